@@ -63,8 +63,191 @@ def compare(text_a, text_b):
     return bool(eq), reason, a[0], b[0]
 
 
+# ---------------------------------------------------------------------------------------------------------------
+# forves adapter clause: "reports 'true' only for pairs it has rendered faithfully"
+FORVES_META = {0: "PUSHDEPLOYADDRESS", 1: "PUSHSIZE", 2: "PUSHLIB", 3: "PUSHIMMUTABLE", 4: "PUSH data", 5: "PUSH [tag]",
+               6: "PUSH [$]", 7: "PUSH #[$]"}
+
+
+def read_forves(text):
+    """independent reader of the documented text format of the external checker: records of four lines
+    '#', optimized sequence, original sequence, stack size; PUSHn 0x<hex>; METAPUSH <kind> 0x<hex>"""
+    lines = text.split("\n")
+    if len(lines) % 4:
+        raise ValueError("not a sequence of 4-line records")
+    out = []
+    for k in range(0, len(lines), 4):
+        if lines[k] != "#":
+            raise ValueError("record does not start with #")
+        int(lines[k + 3])
+        pair = []
+        for line in (lines[k + 2], lines[k + 1]):
+            toks = line.split(" ") if line else []
+            seq = []
+            i = 0
+            while i < len(toks):
+                t = toks[i]
+                m = re.fullmatch(r"PUSH(\d+)", t)
+                if m:
+                    v = toks[i + 1]
+                    if not v.startswith("0x") or not 1 <= int(m.group(1)) <= 32 or int(v, 16) >= 1 << (8 * int(m.group(1))):
+                        raise ValueError("bad push %s %s" % (t, v))
+                    seq.append(("PUSH", "%x" % int(v, 16)))
+                    i += 2
+                elif t == "METAPUSH":
+                    kind = FORVES_META[int(toks[i + 1])]
+                    v = toks[i + 2]
+                    if not v.startswith("0x"):
+                        raise ValueError("bad metapush operand")
+                    seq.append((kind, None if kind in ("PUSHDEPLOYADDRESS", "PUSHSIZE") else v[2:]))
+                    i += 3
+                else:
+                    seq.append((t, None))
+                    i += 1
+            pair.append(seq)
+        out.append(tuple(pair))
+    return out
+
+
+_IDEAL = {"undecided": 0, "pairs": 0, "rendered": None}
+
+
+def _ideal_checker(cmd):
+    """stand-in for bin/forves-checker (stub, listed in evidence): an *ideal* external checker that answers true
+    exactly when every rendered (original, optimized) pair is equivalent for all states (decided by E1)."""
+    m = re.search(r"-i (\S+)", cmd)
+    text = open(m.group(1)).read()
+    _IDEAL["rendered"] = text
+    try:
+        pairs = read_forves(text)
+    except Exception as e:                       # noqa
+        _IDEAL["rendered"] = "unreadable: %s" % e
+        return "parsing error"
+    for orig, opt in pairs:
+        _IDEAL["pairs"] += 1
+        try:
+            r = check_equiv(orig, opt, 8000, kind="c05")
+        except Exception:                        # noqa
+            _IDEAL["undecided"] += 1
+            return "false"
+        if r.verdict == "different":
+            return "false"
+        if r.verdict != "equal":
+            _IDEAL["undecided"] += 1
+            return "false"
+    return "true"
+
+
+def forves_adapter(plain_a, plain_b, criteria):
+    import tempfile, os, shutil
+    import global_params.paths as paths
+    import verification.forves_verification as fv
+    d = tempfile.mkdtemp(prefix="verif_forves_")
+    os.makedirs(os.path.join(d, "bin"))
+    open(os.path.join(d, "bin", "forves-checker"), "w").close()
+    old_path, old_run = paths.project_path, fv.run_command
+    paths.project_path, fv.run_command = d, _ideal_checker
+    _IDEAL["rendered"] = None
+    try:
+        with gasol.Silence():
+            return fv.compare_forves(plain_a, plain_b, criteria, True), _IDEAL["rendered"]
+    except Exception as e:                        # noqa
+        return "raised %s: %s" % (type(e).__name__, str(e)[:80]), _IDEAL["rendered"]
+    finally:
+        paths.project_path, fv.run_command = old_path, old_run
+        shutil.rmtree(d, ignore_errors=True)
+
+
+def forves_mutants(text):
+    """the operators of mutants() plus the ones that matter for a segment-wise rendering: an instruction moved
+    across a split instruction, the operand of ASSIGNIMMUTABLE changed, a split instruction replaced/dropped"""
+    toks = BC.tokens_of_text(text)
+    out = [(text, "identity")]
+    out += mutants(text)
+    for i, t in enumerate(toks):
+        if t.split(" ")[0] in FORVES_SPLITS:
+            if i > 0:
+                out.append((" ".join(toks[:i - 1] + [t, toks[i - 1]] + toks[i + 1:]), "move-across-split"))
+            if i + 1 < len(toks):
+                out.append((" ".join(toks[:i] + [toks[i + 1], t] + toks[i + 2:]), "move-across-split"))
+            if t.startswith("ASSIGNIMMUTABLE "):
+                out.append((" ".join(toks[:i] + ["ASSIGNIMMUTABLE 6"] + toks[i + 1:]), "split-operand"))
+            alt = "LOG1" if t == "LOG0" else ("LOG0" if t == "LOG1" else None)
+            if alt:
+                out.append((" ".join(toks[:i] + [alt] + toks[i + 1:]), "split-substitution"))
+    good = []
+    for m, op in out:
+        try:
+            if E.needed_depth([BC._tok2(x) for x in BC.tokens_of_text(m)])[0] <= 16:
+                good.append((m, op))
+        except Exception:                         # noqa
+            pass
+    return good
+
+
+FORVES_SPLITS = ("GAS", "LOG0", "LOG1", "ASSIGNIMMUTABLE", "CALLDATACOPY")
+
+
+def forves_bases(stride1, stride2):
+    """blocks with one or two split instructions around short segments (fixed strides: seed independent)"""
+    import itertools
+    small = ["PUSH 0", "PUSH 5", "DUP1", "POP", "CALLER", "ADD", "SWAP1", "PUSH [tag] 7", "PUSHSIZE", "SUB"]
+    splits = ["GAS", "LOG0", "ASSIGNIMMUTABLE 5", "CALLDATACOPY"]
+    segs = [()] + [(x,) for x in small[:7]] + list(itertools.product(small[:7], repeat=2))
+    one = [" ".join(pre + (sp,) + post) for sp in splits for pre in segs for post in segs]
+    two = [" ".join((x, s1, y, s2, z)) for s1 in splits for s2 in splits for x in small for y in small for z in small]
+    out = []
+    for t in one[::stride1] + two[::stride2]:
+        try:
+            if E.needed_depth([BC._tok2(x) for x in BC.tokens_of_text(t)])[0] <= 6:
+                out.append(t)
+        except Exception:                         # noqa
+            pass
+    return list(dict.fromkeys(out))
+
+
+def forves_job(j):
+    _, ta, mode = j
+    recs = []
+    before = dict(_IDEAL)
+    crit = "gas" if gasol.params().criteria == "gas" else "size"
+    cands = forves_mutants(ta) if mode == "mutate" else []
+    if mode == "optimize":
+        blocks = gasol.parse_plain(ta)
+        if len(blocks) == 1:
+            res = gasol.optimize_one(blocks[0])
+            cands = [(res["out_block"].to_plain(), "optimized")]
+    for tb, op in cands:
+        try:
+            a = gasol.parse_plain(ta)
+            b = gasol.parse_plain(tb)
+        except Exception:                         # noqa
+            continue
+        if len(a) != 1 or len(b) != 1:
+            continue
+        ans, rendered = forves_adapter(a[0].to_plain(), b[0].to_plain(), crit)
+        rec = {"kind": "forves:" + op, "a": ta, "b": tb, "adapter": ans, "rendered": rendered}
+        if ans == "true":
+            r = check_equiv(gasol.instrs_of(a[0]), gasol.instrs_of(b[0]), 8000, kind="c05")
+            rec["verdict"] = {"equal": "true-equivalent", "different": "UNFAITHFUL", "unknown": "true-undecided",
+                              "unsupported": "true-unsupported", "spurious": "true-undecided",
+                              "harness-error": "harness-error"}[r.verdict]
+            if r.verdict == "different":
+                rec["observed"] = r.replay
+                rec["state"] = r.state
+                rec["why"] = r.reason
+        elif ans.startswith("raised"):
+            rec["verdict"] = "adapter-raised"
+        else:
+            rec["verdict"] = "adapter-" + ans
+        recs.append(rec)
+    return {"recs": recs, "ideal": {"pairs": _IDEAL["pairs"] - before["pairs"], "undecided": _IDEAL["undecided"] - before["undecided"]}}
+
+
 def job(j):
     kind = j[0]
+    if kind == "forves":
+        return forves_job(j)
     recs = []
     if kind == "reflexive":
         text = j[1]
@@ -120,6 +303,7 @@ def main():
     else:
         mem_pairs += F.f_mem_move_pairs(deltas=(0, 8, 16, 40), length=4)[::8]
     tasks = []
+    fbases = forves_bases(61, 97) if tier == "quick" else forves_bases(5, 11)
     osets = [gasol.optset("none", "gas", True, True, "greedy"), gasol.optset("none", "gas", False, True, "greedy"),
              gasol.optset("storage", "gas", True, True, "greedy"), gasol.optset("partition", "size", True, False, "greedy")]
     for k, o in enumerate(osets):
@@ -127,9 +311,14 @@ def main():
         jobs = [("mutate", t) for i, t in enumerate(base) if i % g == 0]
         jobs += [("pair", a, b, op) for i, (a, b, op) in enumerate(mem_pairs) if i % g == 0]
         jobs += [("reflexive", t) for i, t in enumerate(base) if i % g == 0]
+        if k in (0, 3):
+            jobs += [("forves", t, "mutate") for t in fbases]
+            jobs += [("forves", t, "mutate") for i, t in enumerate(base) if i % (48 if tier == "quick" else 8) == 0]
+            jobs += [("forves", t, "optimize") for i, t in enumerate(base + fbases) if i % (8 if tier == "quick" else 2) == 0]
         tasks.append((o, jobs, 100))
     results, stats = pool.run(tasks, "checks.c05:job", job_timeout=300)
     programs = accepted = 0
+    forves = {"pairs": 0, "answered_true": 0, "verdicts": {}, "by_mutation": {}, "rendered_pairs_decided": 0, "rendered_undecided": 0}
     verdicts = {}
     by_op = {}
     samples = []
@@ -138,9 +327,29 @@ def main():
         if "recs" not in r:
             verdicts["harness"] = verdicts.get("harness", 0) + 1
             continue
+        if "ideal" in r:
+            forves["rendered_pairs_decided"] += r["ideal"]["pairs"]
+            forves["rendered_undecided"] += r["ideal"]["undecided"]
         for rec in r["recs"]:
             programs += 1
             v = rec["verdict"]
+            if rec["kind"].startswith("forves:"):
+                forves["pairs"] += 1
+                forves["verdicts"][v] = forves["verdicts"].get(v, 0) + 1
+                forves["by_mutation"].setdefault(rec["kind"][7:], {}).setdefault(v, 0)
+                forves["by_mutation"][rec["kind"][7:]][v] += 1
+                if rec["adapter"] == "true":
+                    forves["answered_true"] += 1
+                    accepted += 1
+                if v == "UNFAITHFUL":
+                    rep.violation("forves:%s:%s => %s" % (rec["kind"][7:], rec["a"], rec["b"]),
+                                  "the external-checker adapter answers 'true' (with a checker that decides the rendered pairs exactly) but a state "
+                                  "separates the blocks: %s; %s; rendered as %r [options %s]" % (rec.get("why"), rec.get("observed"), rec.get("rendered"), on),
+                                  {"options": o, "a": rec["a"], "b": rec["b"], "state": rec.get("state"), "observed": rec.get("observed"),
+                                   "rendered": rec.get("rendered")})
+                if v == "harness-error":
+                    rep.harness_error("model did not replay: %s vs %s" % (rec["a"], rec["b"]))
+                continue
             verdicts[v] = verdicts.get(v, 0) + 1
             by_op.setdefault(rec["kind"], {}).setdefault(v, 0)
             by_op[rec["kind"]][v] += 1
@@ -164,12 +373,19 @@ def main():
     rep.coverage = {
         "programs": programs, "disagreements_checked": accepted, "verdicts": verdicts, "by_mutation": by_op,
         "samples": samples or [{"note": "none"}], "solver": stats.as_dict(), "base_blocks": len(base),
-        "functions": ["gasol_asm.compare_asm_block_asm_format", "verification.sfs_verify.verify_block_from_list_of_sfs"],
+        "functions": ["gasol_asm.compare_asm_block_asm_format", "verification.sfs_verify.verify_block_from_list_of_sfs",
+                      "verification.forves_verification.compare_forves", "verification.forves_verification.forves_format"],
+        "forves_adapter": forves,
+        "stubs": ["bin/forves-checker is absent: verification.forves_verification.run_command is rebound to an ideal checker that reads the "
+                  "file the adapter wrote with an independent reader of the documented format and answers true exactly when E1 proves "
+                  "every rendered pair equivalent; paths.project_path points to a scratch directory holding an empty bin/forves-checker"],
         "explanation": "programs = (B, B') pairs and reflexive comparisons given to the real checker; "
                        "disagreements_checked = pairs the checker accepted as equal, each decided by the SMT query",
         "bounds": "mutation operators: operand swap, signed/unsigned and shift-kind substitution, constant +-1 / bit flips, "
-                  "dropped/duplicated/transposed stores, DUP/SWAP index +-1 on the stated families; the external forves "
-                  "adapter is not exercised (no forves binary in the sandbox; stated as outside the claim)",
+                  "dropped/duplicated/transposed stores, DUP/SWAP index +-1 on the stated families; forves adapter: the same "
+                  "operators plus instruction moved across a split instruction, split instruction replaced, ASSIGNIMMUTABLE operand "
+                  "changed, and the pipeline's own optimized block, on blocks with 0-2 split instructions; the real forves binary "
+                  "is not available, so what is decided is the adapter (rendering, segment pairing, answer mapping), not forves",
     }
     rep.assumptions = ["offsets/lengths < 2^32", "ADDRESS/ORIGIN/CALLER/COINBASE < 2^160"]
     sys.exit(rep.finish())
